@@ -7,6 +7,7 @@ from __future__ import unicode_literals
 
 import ast
 import collections
+import itertools
 import re
 import traceback
 
@@ -170,6 +171,88 @@ CATASTROPHIC = ["'\\8'", "'abc\\", '/*', '#', "'x", '/[/', '"\\x"', '\x00',
                 '/', '\\', "'\\u12'", '/a\\']
 
 
+PUMP_BUDGET = 2.0
+PUMP_WIDE = ['\\', '0', '1', '8', 'x', 'u', 'a', '"', "'", '/', '*', '[', ']',
+             '(', ')', '{', '\n', ' ', '+', '.', 'e', '$', ',']
+PUMP_CORE = ['\\', '0', '7', 'x', 'a', '/', '*', '[', '\n', ' ']
+PUMP_PRE = ['', '"', "'", '/', '/*', '//', 'a=', '/[', '0', '.', 'a=/',
+            '"\\', 'x/']
+PUMP_SUF = ['', '"', "'", '/', '*/', '\n', ';']
+
+
+def pumped_texts(tier, length):
+    units = set()
+    for k in (1, 2):
+        for t in itertools.product(PUMP_WIDE, repeat=k):
+            units.add(''.join(t))
+    for t in itertools.product(
+            PUMP_WIDE if tier != 'quick' else PUMP_CORE, repeat=3):
+        units.add(''.join(t))
+    if tier != 'quick':
+        for t in itertools.product(PUMP_CORE, repeat=4):
+            units.add(''.join(t))
+    out = []
+    for u in sorted(units):
+        # a unit that is a power of a shorter one repeats that one's inputs
+        if any(u == u[:d] * (len(u) // d) for d in range(1, len(u))
+               if len(u) % d == 0):
+            continue
+        for pre in PUMP_PRE:
+            body = pre + u * ((length - len(pre)) // len(u))
+            for suf in PUMP_SUF:
+                out.append((body + suf, pre, suf))
+    return out
+
+
+def run_pumped(texts):
+    """parse() of each text within PUMP_BUDGET seconds of CPU time"""
+    def work(chunk, idx):
+        acc = Acc()
+        for t, pre, suf in chunk:
+            acc.cases += 1
+            try:
+                try:
+                    kind, e = call_with_timeout(PUMP_BUDGET, run_one, t,
+                                                'parse')
+                except CaseTimeout:
+                    kind, e = call_with_timeout(3 * PUMP_BUDGET, run_one, t,
+                                                'parse')
+            except CaseTimeout:
+                acc.bag.add(
+                    'C12|parse|running-time-explodes|prefix=%s|suffix=%s' % (
+                        pre.replace('\n', 'LF') or 'none',
+                        suf.replace('\n', 'LF') or 'none'),
+                    {'text': t, 'mode': 'parse'},
+                    '%d characters: no result within %s s of CPU time '
+                    '(normal: milliseconds)' % (len(t), 3 * PUMP_BUDGET))
+                continue
+            acc.out['parse:%s' % (kind if kind != 'other'
+                                  else type(e).__name__)] += 1
+            if kind == 'ok':
+                continue
+            acc.nontrivial += 1
+            if kind == 'syntax-error':
+                r = check_message(t, str(e))
+                if r:
+                    acc.bag.add('C12|parse|%s' % r[0],
+                                {'text': t, 'mode': 'parse'}, r[1])
+            elif kind == 'recursion':
+                acc.bag.add('C12|parse|raises|RecursionError|pumped',
+                            {'text': t, 'mode': 'parse'}, repr(e))
+            elif kind == 'runaway-token-stream':
+                acc.bag.add('C12|parse|runaway-token-stream',
+                            {'text': t, 'mode': 'parse'}, '')
+            else:
+                acc.bag.add('C12|parse|raises|%s|%s' % (
+                    type(e).__name__, where_of(e)),
+                    {'text': t, 'mode': 'parse'}, repr(e)[:200])
+        return acc
+    total = Acc()
+    for a in pmap(work, texts):
+        total.merge(a)
+    return total
+
+
 def dead_prefixes(alphabet, depth):
     """minimal dead prefixes of S1 (implementation view) + their parents"""
     from mc import impl as I
@@ -281,6 +364,19 @@ def run(tier, rep):
         cp_texts += ['/' + c + '/' for c in cps[:0x3100]]
     total.merge(run_texts(cp_texts, ('parse',)))
     rep.space('code-points', upto=hex(hi), texts=len(cp_texts))
+
+    # (5) pumped inputs: prefix + unit^n + suffix of a fixed total length.
+    # Inputs of the small-length spaces cannot show a running time that
+    # grows exponentially with the length; these can.
+    plen = 96 if tier == 'quick' else 160
+    pumped = pumped_texts(tier, plen)
+    n0 = total.cases
+    total.merge(run_pumped(pumped))
+    rep.space('pumped', length=plen, texts=len(pumped),
+              budget_cpu_seconds=PUMP_BUDGET, runs=total.cases - n0,
+              prefixes=PUMP_PRE, suffixes=PUMP_SUF,
+              unit_alphabet=PUMP_WIDE if tier != 'quick' else PUMP_CORE,
+              unit_alphabet_short=PUMP_WIDE)
 
     rep.bag.merge(total.bag)
     rep.cov['states'] = total.cases
